@@ -73,6 +73,23 @@ add("C20", "exploration",
     "Bounded-liveness only (no proof of termination); healthy tmpfs disk; watchdog hits are inconclusive.",
     "concurrent property-based testing with a bounded-wait (confirmed twice) oracle", "§4 C20")
 
+add("C24", "exploration",
+    "distribute_partition is evaluated on the full grid of partition counts 0..=65535 x rf {0..=13,255} x 24 boundary hashes in the quick tier and on the entire 2^16 x 2^16 (hash, partition count) space at rf=255 in the thorough tier, plus seeded random triples: length, first element, range, distinctness, emptiness for zero inputs, determinism and the prefix relation between replication factors.",
+    "Thorough tier is exhaustive over (hash, n) at rf=255 and over rf for the boundary hashes; rf and the prefix relation are not crossed with all 2^16 hashes.",
+    "exhaustive enumeration + property-based testing with algebraic oracles (validity predicates, prefix/metamorphic relation)", "§4 C24")
+add("C13", "exploration",
+    "Every configuration accepted by AppConfig::validate with 1-6 nodes, 1-8 buckets, 1-16 partitions and rf up to the node count is enumerated for every node index, and sampled configurations up to 300 nodes / 65535 partitions: the partitions of the buckets a node opens must equal the partitions its TopologyManager claims, and every node a partition is routed to (all members known) must store the partition's bucket.",
+    "bucket.ids / partition.ids overrides are not exercised. For clusters above 48 nodes the per-node comparison is done for a sample of indices; the routing check covers all nodes.",
+    "exhaustive small-scope enumeration + property-based sampling with a differential oracle (server placement vs topology routing)", "§4 C13")
+add("C14", "exploration",
+    "Static: for node counts 1-20, 255, 256, 257, 300, 1000 and grids of bucket/partition counts and rf 1-12 the owners of every partition over all node indices must be exactly min(rf, N) distinct nodes and equal the replica set. Dynamic: 2-5 TopologyManager instances are driven by generated membership histories (requests with responses delivered to chosen nodes now or later, heartbeats, disconnects, timeouts; equal and different alive_since); after every step any two managers with equal active_nodes must have equal replica sets and equal coordinator order for every partition.",
+    "Managers are driven directly (no libp2p transport); ownership responses are rebuilt exactly as on_node_connected builds them because the message type is crate-private.",
+    "enumeration + stateful property-based testing with a pairwise-agreement invariant", "§4 C14")
+add("C26", "exploration",
+    "The breaker is driven by 1-3 real threads under a harness-owned schedule: hook H4 replaces its clock and doubles as the yield point, so the tape decides every thread switch (before each operation and at each clock read inside the breaker) and every clock advance. Oracles: no panic, Closed->Open only with at least failure_threshold failures in flight or completed since the last completed success, at most half_open_max_calls admissions per half-open episode including the transition call.",
+    "Only the windows at operation boundaries and clock reads are interleaved (that is where every racy load of the breaker sits); atomic sequences between them run uninterrupted.",
+    "property-based testing over harness-owned thread schedules (deterministic, shrinkable interleavings) with invariant oracles", "§4 C26")
+
 NOT_BUILT = {}
 ALL = ["C%02d" % i for i in range(1, 27)]
 for i in ALL:
